@@ -127,6 +127,22 @@ func (dec *Decoder) Decode() (*Document, error) {
 			family = f
 		}
 
+		if indent-1 >= len(indents) {
+			// This means the file is not valid. I have seen it in very rare
+			// cases. See full explanation in AllowInvalidIndents.
+			//
+			// This has to happen before checking for a root node because when
+			// there is no parent at all (the first line of the file has an
+			// indent) the only place left for the node is the root.
+			if dec.AllowInvalidIndents {
+				indent = len(indents)
+			} else {
+				panic(fmt.Sprintf(
+					"indent is too large - missing parent? at line %d: %s",
+					lineNumber, line))
+			}
+		}
+
 		// Add a root node to the document.
 		if indent == 0 {
 			dec.trimNodeValue(previousNode)
@@ -138,18 +154,6 @@ func (dec *Decoder) Decode() (*Document, error) {
 			indents = Nodes{node}
 
 			continue
-		}
-
-		if indent-1 >= len(indents) {
-			// This means the file is not valid. I have seen it in very rare
-			// cases. See full explanation in AllowInvalidIndents.
-			if dec.AllowInvalidIndents {
-				indent = len(indents)
-			} else {
-				panic(fmt.Sprintf(
-					"indent is too large - missing parent? at line %d: %s",
-					lineNumber, line))
-			}
 		}
 
 		i := indents[indent-1]
